@@ -4,6 +4,7 @@ From Coq Require Import List NArith Bool String.
 Import ListNotations.
 From JR Require Import Resp Resp_Proofs.
 From JRGen Require Extracted.
+From JR Require Skeletons.
 Open Scope N_scope.
 
 Theorem c06_source_facts :
@@ -44,6 +45,16 @@ Theorem c06_no_aliasing : forall s id s',
   rstep s (SRegister id) = Some s' -> memn id (handling s) = false /\ memn id (known s) = false.
 Proof. exact register_fresh. Qed.
 
+(* the functions this property's model is an abstraction of still have the control / locking / shared-state skeleton the
+   model was written against (Skeletons.v, by hand; Extracted.v, regenerated from /repo) *)
+Theorem c06_code_skeletons :
+  JRGen.Extracted.effects_handleCall = JR.Skeletons.handleCall /\
+  JRGen.Extracted.effects_cancelCtx = JR.Skeletons.cancelCtx /\
+  JRGen.Extracted.effects_handleCtxAsync = JR.Skeletons.handleCtxAsync /\
+  JRGen.Extracted.effects_setupRequestChan = JR.Skeletons.setupRequestChan.
+Proof. repeat split; reflexivity. Qed.
+
+Print Assumptions c06_code_skeletons.
 Print Assumptions c06_source_facts.
 Print Assumptions c06_only_causes.
 Print Assumptions c06_needs_caller.
